@@ -633,3 +633,187 @@ Proof.
   split; [apply E'|]. intros Ho. unfold squash_cli_text. rewrite Ho. apply E'.
 Qed.
 Print Assumptions squash_cli_roundtrip.
+
+(* ---------- non-vacuity, and the hypotheses are needed ------------------------------------------------ *)
+
+Definition ex_leaf (s : string) : tree := T (Some 7) (NLeaf [Str s]) [].
+Definition ex_sec (s : string) (k : list tree) : tree := T None (NSection [Str s]) k.
+
+(* nested lists, quotes (one empty), a table, references of both kinds, rule, code, an empty list *)
+Definition ex_tree : tree := T (Some 3) (NDocument "x")
+  [ex_sec "A" [ex_leaf "a";
+               T None NBList [ex_sec "i1" [T None NOList [ex_sec "n1" []; ex_sec "n2" [ex_leaf "p"]]]; ex_sec "i2" []];
+               T None NQuote [ex_leaf "q"; ex_sec "qs" [ex_leaf "z"]]; T None NQuote [];
+               T None (NTable [[Str "h"]] [ANone] [[[Str "c"]]]) [];
+               T None (NRef "k" "" WikiLink) []; T None (NRef "d/k2" "t2" Regular) [];
+               T None NRule []; T None (NRaw (Some "rs") "code") []];
+   ex_sec "B" [ex_leaf "with a [[w]] link"]; T None NBList []].
+
+Definition ex_arena : arena := [GN (KDocument "o") None None (Some 1); GN (KLeaf []) (Some 0) None None].
+
+Example collect_build_nonvacuous :
+  arena_ok ex_arena = true /\ buildable ex_tree = true /\ inner_doc_free ex_tree = true /\
+  renorm_tree ex_tree = ex_tree /\ tsz (built_tree "k" ex_tree) = 23 /\
+  tree_read_back ex_arena "k" ex_tree = Ok (Some (label (built_tree "k" ex_tree) 2)) /\
+  (exists st, build_key_from_iter ex_arena "k" ex_tree = Ok st /\ arena_ok (b_arena st) = true /\
+              length (b_arena st) = 25 /\ firstn 2 (b_arena st) = ex_arena) /\
+  (exists st, build_key_from_iter [] "k" ex_tree = Ok st /\
+     to_markdown (Opts "") ["|h|"] (cli_patch st "k") "k" = Ok (tree_to_markdown (Opts "") ["|h|"] "" ex_tree)).
+Proof.
+  do 6 (split; [vm_compute; reflexivity|]). split.
+  - eexists. split; [vm_compute; reflexivity|]. split; [|split]; vm_compute; reflexivity.
+  - eexists. split; vm_compute; reflexivity.
+Qed.
+
+(* outside [buildable]: a leaf with a child *)
+Theorem collect_build_refuted :
+  exists t, buildable t = false /\ t = T None (NLeaf [Str "l"]) [T None (NLeaf [Str "c"]) []] /\
+            build_key_from_iter [] "k" t = Panic "cant set child".
+Proof. eexists. split; [|split; [reflexivity|]]; vm_compute; reflexivity. Qed.
+
+(* outside [renorm_tree t = t]: a wiki-link reference node carrying a text, as a list item: the
+   tree renders its text, the graph built from it does not (GraphNodePointer::node blanks it) *)
+Theorem squash_cli_roundtrip_refuted :
+  exists t st, buildable t = true /\ inner_doc_free t = true /\ renorm_tree t <> t /\
+    t = T None (NDocument "k") [T None NBList [T None (NRef "r" "text" WikiLink) []]] /\
+    build_key_from_iter [] "k" t = Ok st /\
+    to_markdown (Opts "") [] (cli_patch st "k") "k" <> Ok (tree_to_markdown (Opts "") [] "" t).
+Proof.
+  exists (T None (NDocument "k") [T None NBList [T None (NRef "r" "text" WikiLink) []]]).
+  eexists. split; [vm_compute; reflexivity|]. split; [vm_compute; reflexivity|].
+  split; [vm_compute; discriminate|]. split; [reflexivity|]. split; [vm_compute; reflexivity|].
+  vm_compute. discriminate.
+Qed.
+
+(* ---------- the class is exact: outside it the builder panics ------------------------------------------ *)
+
+(* asked to insert something below a node that cannot have children *)
+Lemma undisc_panics : forall n it fuel st,
+  fsz (den it) <= n -> fsz (den it) < fuel -> normf (den it) <> [] ->
+  (exists nn, get (b_arena st) (b_cur st) = Some nn /\ insertable (g_kind nn) = false /\ is_emptyk (g_kind nn) = false) ->
+  from_iter fuel true st it = Panic "cant set child".
+Proof.
+  induction n as [|n IH]; intros it fuel st Hn Hfuel Hne Hcur.
+  - assert (E : den it = []) by (apply fsz_zero; lia). rewrite E in Hne. now elim Hne.
+  - destruct fuel as [|f]; [lia|]. rewrite from_iter_S. cbv zeta.
+    rewrite ti_is_document_den, ti_node_den.
+    destruct (den it) as [|[i nd cs] rest] eqn:E; [now elim Hne|].
+    destruct (ti_child_den it _ _ E) as (ch & Hch & Dch). cbn [t_children] in Dch.
+    rewrite tsz_fsz_cons in Hn, Hfuel. rewrite normf_cons in Hne.
+    assert (Hnd : (exists k, nd = NDocument k) \/ match nd with NDocument _ => False | _ => True end)
+      by (destruct nd; eauto).
+    destruct Hnd as [[k ->]|Hnd].
+    + rewrite Hch. apply (IH ch f (set_insert st true)); rewrite ?Dch; auto; lia.
+    + replace (match nd with NDocument _ => true | _ => false end) with false by (destruct nd; [contradiction | reflexivity ..]).
+      cbn [t_node]. rewrite (add_new_node_and_eq _ nd _ Hnd). unfold add_node_and2.
+      cbn [set_insert b_insert b_arena b_cur]. destruct Hcur as (nn & Hg & Hi & He).
+      unfold set_child_id. rewrite Hg. destruct (g_kind nn); try discriminate; reflexivity.
+Qed.
+
+Lemma from_iter_panics : forall n it fuel first st,
+  fsz (den it) <= n -> fsz (den it) < fuel ->
+  forallb shape_ok (normf (den it)) = false ->
+  arena_ok (b_arena st) = true ->
+  b_cur st < length (b_arena st) ->
+  (normf (den it) <> [] -> disciplined (b_arena st) (b_cur st) first) ->
+  from_iter fuel first st it = Panic "cant set child".
+Proof.
+  induction n as [|n IH]; intros it fuel first st Hn Hfuel Hshape Hok Hcur Hdisc.
+  - assert (E : den it = []) by (apply fsz_zero; lia). rewrite E in Hshape. discriminate.
+  - destruct fuel as [|f]; [lia|]. rewrite from_iter_S. cbv zeta.
+    rewrite ti_is_document_den, ti_node_den.
+    destruct (den it) as [|[i nd cs] rest] eqn:E; [discriminate|].
+    destruct (ti_child_den it _ _ E) as (ch & Hch & Dch). cbn [t_children] in Dch.
+    rewrite tsz_fsz_cons in Hn, Hfuel.
+    rewrite normf_cons in Hshape, Hdisc.
+    assert (Hnd : (exists k, nd = NDocument k) \/ match nd with NDocument _ => False | _ => True end)
+      by (destruct nd; eauto).
+    destruct Hnd as [[k ->]|Hnd].
+    + rewrite Hch. apply (IH ch f first (set_insert st first)); cbn [set_insert b_arena b_cur]; rewrite ?Dch; auto; lia.
+    + assert (Hnorm : match nd with NDocument _ => normf cs | _ => T None nd (normf cs) :: normf rest end
+                      = T None nd (normf cs) :: normf rest) by (destruct nd; [contradiction | reflexivity ..]).
+      rewrite Hnorm in *. clear Hnorm.
+      replace (match nd with NDocument _ => true | _ => false end) with false by (destruct nd; [contradiction | reflexivity ..]).
+      cbn [t_node]. rewrite (add_new_node_and_eq _ nd _ Hnd).
+      destruct (node_gkind_facts nd Hnd) as (Hke & Hkd & Hkn).
+      set (k := node_gkind nd) in *. set (st0 := set_insert st first).
+      specialize (Hdisc ltac:(discriminate)).
+      cbn [forallb] in Hshape. rewrite shape_ok_T in Hshape. unfold node_insertable in Hshape. fold k in Hshape.
+      assert (HP : Pre st0) by (split; [exact Hok | exact Hdisc]).
+      destruct (add_node_Moved st0 k HP Hke Hkd) as (s1 & Hadd & HM & Hnew & Hc1).
+      rewrite (add_node_and2_eq st0 k _ s1 Hadd). cbn [st0 set_insert b_map b_cur b_arena] in *.
+      set (a := b_arena st) in *. set (cur := b_cur st) in *. set (a1 := b_arena s1) in *.
+      set (new := b_cur s1) in *.
+      destruct HM as (((Ok1 & Fr1 & Nw1) & _ & _) & _ & _). cbn [b_arena b_cur b_insert] in Ok1, Fr1, Nw1.
+      fold a cur a1 in Ok1, Fr1, Nw1.
+      assert (Hnewlt : new < length a1) by (eapply get_lt; exact Hnew).
+      rewrite Hch.
+      (* a node that cannot have children, with something to put below it *)
+      destruct (insertable k) eqn:Hins; cbn [orb] in Hshape.
+      2:{ destruct (normf cs) as [|y ys] eqn:Ecs.
+          2:{ rewrite (undisc_panics (fsz cs) ch f (B a1 new false (b_map st))); [reflexivity | | | |];
+                rewrite ?Dch, ?Ecs; try lia; [discriminate|].
+              cbn [b_arena b_cur]. exists (GN k (Some cur) None None). cbn [g_kind]. auto. }
+          (* nothing below it: the failure is among the following siblings *)
+          cbn [forallb andb] in Hshape.
+          destruct (from_iter_spec (fsz cs) ch f true (B a1 new false (b_map st))) as (s2 & H2 & Hc2 & _ & _ & G2);
+            cbn [b_arena b_cur]; rewrite ?Dch, ?Ecs; auto; try lia; [congruence|].
+          rewrite H2. cbn [bind b_arena b_cur] in *. set (a2 := b_arena s2) in *.
+          destruct G2 as (Ok2 & Fr2 & Nw2).
+          assert (Hlen2 : length a1 <= length a2) by (destruct Fr2 as [L _]; exact L).
+          pose proof (ti_next_den it _ _ E) as Hnx. destruct (ti_next it) as [nx|]; [|subst rest; discriminate].
+          rewrite (IH nx f false s2); rewrite ?Hnx, ?Hc2; fold a2; auto; try lia.
+          intros Hne. destruct Fr2 as [_ F2]. destruct (F2 new _ Hnew) as (n' & Gn' & Kn' & _ & _ & Sn').
+          exists n'. split; [exact Gn'|]. rewrite Kn', Sn'. cbn [g_kind g_next]. auto. }
+      (* a container *)
+      assert (Hd1 : normf cs <> [] -> disciplined a1 new true).
+      { intros _. exists (GN k (Some cur) None None). split; [exact Hnew|]. cbn [g_kind g_child]. auto. }
+      destruct (forallb shape_ok (normf cs)) eqn:Hscs.
+      2:{ rewrite (IH ch f true (B a1 new true (b_map st))); cbn [b_arena b_cur]; rewrite ?Dch; auto; lia. }
+      cbn [andb] in Hshape.
+      destruct (from_iter_spec (fsz cs) ch f true (B a1 new true (b_map st))) as (s2 & H2 & Hc2 & _ & _ & G2);
+        cbn [b_arena b_cur]; rewrite ?Dch; auto; try lia.
+      rewrite H2. cbn [bind b_arena b_cur] in *. set (a2 := b_arena s2) in *.
+      destruct G2 as (Ok2 & Fr2 & Nw2).
+      assert (Hlen2 : length a1 <= length a2) by (destruct Fr2 as [L _]; exact L).
+      pose proof (ti_next_den it _ _ E) as Hnx. destruct (ti_next it) as [nx|]; [|subst rest; discriminate].
+      rewrite (IH nx f false s2); rewrite ?Hnx, ?Hc2; fold a2; auto; try lia.
+      intros Hne. destruct Fr2 as [_ F2]. destruct (F2 new _ Hnew) as (n' & Gn' & Kn' & _ & _ & Sn').
+      exists n'. split; [exact Gn'|]. rewrite Kn', Sn'. cbn [g_kind g_next]. auto.
+Qed.
+
+(* the builder returns exactly on [buildable] trees; otherwise it dies in `set_child_id` *)
+Theorem build_panics (a : arena) (key : string) (t : tree) :
+  arena_ok a = true -> buildable t = false ->
+  build_key_from_iter a key t = Panic "cant set child".
+Proof.
+  intros Hok Hb. unfold build_key_from_iter, insert_from_iter, iter_fuel.
+  destruct (build_key_wf a key Hok) as [O D].
+  apply (from_iter_panics (fsz [t])).
+  - apply le_n.
+  - change (den (TI t [])) with [t]. cbn [fsz]. pose proof (tree_nodes_tsz t). lia.
+  - exact Hb.
+  - exact O.
+  - cbn [build_key b_arena b_cur]. rewrite app_length. cbn. lia.
+  - intros _. exact D.
+Qed.
+Print Assumptions build_panics.
+
+Corollary build_returns_iff (a : arena) (key : string) (t : tree) :
+  arena_ok a = true ->
+  ((exists st, build_key_from_iter a key t = Ok st) <-> buildable t = true).
+Proof.
+  intros Hok. split.
+  - intros (st & H). destruct (buildable t) eqn:Hb; [reflexivity|].
+    rewrite (build_panics a key t Hok Hb) in H. discriminate.
+  - intros Hb. destruct (collect_build a key t Hok Hb) as (st & H & _). now exists st.
+Qed.
+
+(* GraphPatch::add_key (no caller in the pinned tree) unwraps the document position itself and then
+   runs the same builder call: same arena on the example *)
+Example add_key_same :
+  match add_key ex_arena "k" ex_tree, build_key_from_iter ex_arena "k" ex_tree with
+  | Ok s1, Ok s2 => b_arena s1 = b_arena s2
+  | _, _ => False
+  end.
+Proof. vm_compute. reflexivity. Qed.
